@@ -4,7 +4,7 @@
 // Through Handler::query_program on a knowledge graph with a fixed starting content: every program of 1..=3
 // (thorough: ..=4) state-changing statements drawn from a pool of 9 (inserts, bulk inserts, deletes, a conditional
 // delete, persistent rule registration, a rule drop, a schema declaration), and for each such program every position
-// (before, between, after) x the malformed statements (those of 15 candidates that statement::parse_statement rejects):
+// (before, between, after) x the malformed statements (those of 19 candidates that statement::parse_statement rejects):
 //   (a) the program with the malformed statement is REJECTED and the knowledge graph (base tuples of every relation,
 //       persistent rules, schemas) is exactly what it was before the request;
 //   (b) the program without it is accepted and leaves the state that submitting its statements one request at a time,
@@ -57,7 +57,7 @@ async fn verif_witness() {
     ];
     // "malformed" is the parser's own verdict: candidates the statement parser accepts are dropped
     let candidates = ["+r1[(1,", "+r5(1,,2)", "?r1(", "d3(X) <- ", "+d4(X) <- r1(X), ,", "-r2(1, ", "r1(X) :- r2(X)", "x := 3",
-        ".nosuchcommand", "+", "?", "+(1)", "+r1(1", "-r1(X) <- ", "+d5(X) <- r1(X), X >"];
+        ".nosuchcommand", "+", "?", "+(1)", "+r1(1", "-r1(X) <- ", "+d5(X) <- r1(X), X >", "?r3(X Y)", "?r1(X,,)", "?r1 X)", "?r1(X), X >"];
     let bad: Vec<&str> = candidates.iter().copied().filter(|b| statement::parse_statement(b).is_err()).collect();
     if bad.len() < 7 { panic!("fewer than 7 of the malformed candidates are rejected by parse_statement: {bad:?}"); }
     let max_len = if vw_thorough() { 4 } else { 3 };
